@@ -160,6 +160,7 @@ void ddp_char_string_verkettet(ddpstring *ret, ddpchar c, ddpstring *str) {
 	size_t num_bytes = utf8_char_to_string(temp, c);
 	if (num_bytes == (size_t)-1) { // if c is invalid utf8, we return simply a copy of str
 		num_bytes = 0;
+		temp[0] = '\0'; // utf8_char_to_string left temp untouched
 	}
 
 	if (ddp_string_empty(str)) {
@@ -185,6 +186,7 @@ void ddp_string_char_verkettet(ddpstring *ret, ddpstring *str, ddpchar c) {
 	size_t num_bytes = utf8_char_to_string(temp, c);
 	if (num_bytes == (size_t)-1) { // if c is invalid utf8, we return simply a copy of str
 		num_bytes = 0;
+		temp[0] = '\0'; // utf8_char_to_string left temp untouched
 	}
 
 	if (ddp_string_empty(str)) {
